@@ -156,3 +156,25 @@ Proof. vm_compute. reflexivity. Qed.
 Example C09_example_full_image_accepted :
   is_lerr (decode 1048576 4 (encode example_graph)) = false.
 Proof. vm_compute. reflexivity. Qed.
+
+(** ** for every graph reachable through the interface *)
+
+From Sodg Require Import Wf.
+
+Theorem C09_reachable_graphs :
+  forall n cap os lim,
+  within_limits n cap sinit os -> Forall wf_op os ->
+  (16 < lim)%N -> (N.of_nat cap < lim)%N -> (lim <= two64)%N -> (N.of_nat n < two64)%N ->
+  exists g, run n (op_empty cap) os = Ok (g, snd (srun sinit os))
+    /\ decode lim n (encode g) = LOk (mkG (g_stores g) (g_branches g) (g_vertices g) 0)
+    /\ forall k, k < length (encode g) -> decode lim n (firstn k (encode g)) = LErr.
+Proof. exact reachable_roundtrip. Qed.
+
+Check C09_reachable_graphs :
+  forall n cap os lim,
+  within_limits n cap sinit os -> Forall wf_op os ->
+  (16 < lim)%N -> (N.of_nat cap < lim)%N -> (lim <= two64)%N -> (N.of_nat n < two64)%N ->
+  exists g, run n (op_empty cap) os = Ok (g, snd (srun sinit os))
+    /\ decode lim n (encode g) = LOk (mkG (g_stores g) (g_branches g) (g_vertices g) 0)
+    /\ forall k, k < length (encode g) -> decode lim n (firstn k (encode g)) = LErr.
+Print Assumptions C09_reachable_graphs.
